@@ -28,12 +28,38 @@ def generate():
     scratch = tempfile.mkdtemp(prefix="rvgen-")
     try:
         logging.disable(logging.CRITICAL)
-        gen = PythonGenerator(spec_base=os.path.join(treeenv.REPO, "specs"), dest_base=scratch)
         import contextlib
         import io
 
-        with contextlib.redirect_stdout(io.StringIO()), contextlib.redirect_stderr(io.StringIO()):
+        def own_environment():
+            gen = PythonGenerator(spec_base=os.path.join(treeenv.REPO, "specs"), dest_base=scratch)
             gen.run(env)
+
+        def tree_main():
+            # the tree's OWN command line entry point (its template environment, filters and all), pointed at a scratch
+            # destination through a config file of the documented form
+            import yaml
+            from genrv.tools import generate as tool
+
+            cfg = os.path.join(scratch, "genrv-config.yaml")
+            with open(cfg, "w") as fh:
+                yaml.safe_dump([{"generator": "genrv.codegen.python.gen:PythonGenerator",
+                                 "spec_base": os.path.join(treeenv.REPO, "specs") + "/", "dest_base": scratch + "/"}], fh)
+            argv, sys.argv = sys.argv, ["generate", "--config", cfg]
+            try:
+                tool.main()
+            finally:
+                sys.argv = argv
+
+        with contextlib.redirect_stdout(io.StringIO()), contextlib.redirect_stderr(io.StringIO()):
+            try:
+                tree_main()
+            except SystemExit:
+                pass
+            except Exception:
+                if os.path.isdir(os.path.join(scratch, "modules")):
+                    shutil.rmtree(os.path.join(scratch, "modules"))
+                own_environment()
         out = {}
         d = os.path.join(scratch, "modules", "base")
         for f in sorted(os.listdir(d)):
